@@ -1,5 +1,6 @@
 import Driver.Proto
 import PolyVerif.Model.Readers
+import PolyVerif.Model.PlyFile
 
 namespace Driver.C14
 open PolyVerif PolyVerif.Readers
@@ -80,6 +81,35 @@ def plyClass (h : Hdr) (bs : List UInt8) : String :=
   | .ok (.bin m) => plyCounts h m.verts.length (h.face.map fun _ => m.faces.map (·.points))
   | .ok (.ascii m) => plyCounts h m.verts.length (h.face.map fun _ => m.faces.map (·.1))
 
+/-- class of `MeshReader.Read` computed from the FILE BYTES alone: header text parser (Model/Ply.lean), bridge
+    `PlyFile.hdrOf`, body reader -/
+def plyFileClass (bs : List UInt8) : String :=
+  match Ply.parseHeader bs with
+  | .error .panic => "panic"
+  | .error .err => "err"
+  | .ok (h, _) =>
+    match PlyFile.hdrOf h, PlyFile.readPlyFile goLex bs with
+    | some hd, .ok (.bin m) => plyCounts hd m.verts.length (hd.face.map fun _ => m.faces.map (·.points))
+    | some hd, .ok (.ascii m) => plyCounts hd m.verts.length (hd.face.map fun _ => m.faces.map (·.1))
+    | _, _ => "err"
+
+/-- the header description the harness derives from the real `ply.ReadHeader`, here derived from the bytes -/
+def plyDescOf (bs : List UInt8) : String :=
+  match Ply.parseHeader bs with
+  | .error _ => "unparsed"
+  | .ok (h, _) =>
+    match PlyFile.hdrOf h with
+    | none => "unsupported"
+    | some hd =>
+      let f := match hd.fmt with | .ascii => "ascii" | .le => "le" | .be => "be"
+      let base := s!"{f} {hd.vcount} {hd.vsize} {hd.nprops}"
+      match hd.face with
+      | none => base ++ " 0"
+      | some fh =>
+        let tex : Int := match fh.tex with | some t => t | none => -1
+        base ++ s!" 1 {fh.count} {fh.idx} {tex} {fh.lists.length}" ++
+          String.join (fh.lists.map fun l => s!" {l.countSize} {l.elemSize}")
+
 /-- header description: fmt vcount vsize nprops hasface [fcount idx tex nlists (countSize elemSize)*] -/
 def hdr? : List String → Option (Hdr × List String)
   | fmt :: vc :: vs :: np :: "0" :: rest => do
@@ -132,6 +162,8 @@ def handle (op : String) (args : List String) : Option String :=
   | "c14.spz.cut", [hex] => (hexBytes? hex).map spzClass
   | "c14.pts.cuts", [hex, spec] => runCuts ptsClass hex spec
   | "c14.pts.cut", [hex] => (hexBytes? hex).map ptsClass
+  | "c14.plyfile.cut", [hex] => (hexBytes? hex).map plyFileClass
+  | "c14.ply.hdr", [hex] => (hexBytes? hex).map plyDescOf
   | "c14.ply.cuts", _ => do
       let (h, rest) ← hdr? args
       match rest with
